@@ -25,6 +25,11 @@ def handle (st : DState) (line : String) : DState × String :=
   | "load" =>
     let d := Dump.parse rest
     ({ st with dump := d }, s!"loaded {d.table.states.size}")
+  | "cert" =>
+    match fields rest with
+    | ["structural", a, b] =>
+      (st, if Cert.structural st.dump.grammar st.dump.table (natOf a) (natOf b) then "1" else "0")
+    | _ => (st, "bad-request")
   | "rawdet" => (st, if st.dump.table.rawDeterministic st.dump.grammar then "1" else "0")
   | "lr" =>
     match rest.splitOn " #" with
